@@ -245,6 +245,13 @@ func c10RefServer13(rc *RunCtx, p *C10Params, cfg DataCfg) {
 	s := rc.S
 	rc.R.Class = cfg.Name + "/ref-server"
 	n := NewSimNet(s, NetRules{})
+	// in half of the runs the reference server asks for a client certificate and checks the
+	// client's Certificate / CertificateVerify / Finished against its own computation
+	clientAuth := (p.Forge+len(p.Sizes))%2 == 0
+	if clientAuth {
+		cfg.C.Cert = []string{"cli-ecdsa", "cli-ed25519"}[len(p.Sizes)%2]
+		rc.R.Class += "+clientauth"
+	}
 	pair, err := NewPair(s, n, cfg.C, cfg.S, nil)
 	if err != nil {
 		rc.Violate("harness", "config: %v", err)
@@ -253,6 +260,7 @@ func c10RefServer13(rc *RunCtx, p *C10Params, cfg DataCfg) {
 	}
 	defer pair.Teardown()
 	ref := NewRogue13(s, n, pair.SAddr, pair.CAddr)
+	ref.RequestClientCert = clientAuth
 	leaf := certPool.Leaf["srv-ecdsa"]
 	ref.Chain = leaf.Certificate
 	ref.Signer, _ = leaf.PrivateKey.(crypto.Signer)
@@ -278,6 +286,27 @@ func c10RefServer13(rc *RunCtx, p *C10Params, cfg DataCfg) {
 
 		return
 	}
+	s.Run(func() bool { return ref.ClientFinOK || ref.ClientFlightBad != "" }, 5*time.Second)
+	switch {
+	case ref.ClientFlightBad != "" && contains(ref.ClientFlightBad, "fragmented"):
+		s.Probe("ref-server-client-flight-fragmented")
+	case ref.ClientFlightBad != "":
+		rc.Violate("ref-server-rejects-client-flight:13", "the reference DTLS 1.3 server (client certificate requested: %v) cannot accept the client's final flight: %s", clientAuth, ref.ClientFlightBad)
+
+		return
+	case !ref.ClientFinOK:
+		rc.Violate("ref-server-rejects-client-flight:13", "the client reported success but the reference server never saw a Finished it could verify")
+
+		return
+	case clientAuth && !ref.ClientCertOK:
+		rc.Violate("ref-server-rejects-client-flight:13", "a client certificate was requested and the client completed without a CertificateVerify the reference server could verify")
+
+		return
+	}
+	if clientAuth {
+		s.Probe("client-certificate-verify-checked-by-reference-server")
+	}
+	s.Probe("client-finished-checked-by-reference-server")
 	s.Probe("handshake-with-reference-server")
 	rd := pair.StartReader("c")
 	var toClient [][]byte
